@@ -6,7 +6,7 @@ from typing import Dict, List, Optional, Set, Tuple
 
 from ..db import ProgramDB, FuncInfo, ClassInfo, AnalysisError, unparse, own_nodes, dotted
 from ..cfg import CFG, Node, Edge, run_forward
-from ..facts import own_calls, call_attr, fn_params
+from ..facts import own_calls, call_attr, fn_params, resolve_call_target
 from ..framework import inst, HOLDS, VIOLATION, UNDECIDED, INFO, Instance
 from .entries import is_eval_method_name
 
@@ -166,4 +166,41 @@ def rule_flatten_keyed(db: ProgramDB) -> List[Instance]:
                         f"(effective implementation: {v.short if v else '?'}): result caches and duplicate suppression key its "
                         f"rows on the parent only, so with caching enabled a condition on the element is answered for all "
                         f"elements of a parent by the first one's result"))
+    return out
+
+
+# ---------------------------------------------------------------------------------- SCALAR-CLASSIFIER
+def rule_scalar_classifier(db: ProgramDB) -> List[Instance]:
+    """flatten / concatenate treat a value that is not a collection as one element.  The classifier they share decides
+    'collection' for objects with __iter__ except strings and bytes - by isinstance, so that values whose type derives
+    from str (a str-based Enum member, a typed string) are scalars too and are not split into characters."""
+    out = []
+    users = []
+    for cname in ("Flatten", "Concatenate"):
+        c = db.cls(cname)
+        for m in c.methods.values():
+            for call in own_calls(m):
+                t = resolve_call_target(db, m, call)
+                if isinstance(t, FuncInfo) and t.module.endswith("utils") or (isinstance(t, FuncInfo) and "iterable" in t.name):
+                    users.append((m, call, t))
+    if not users:
+        raise AnalysisError("Flatten / Concatenate no longer classify values through a shared helper")
+    seen = set()
+    for m, call, t in users:
+        if t.qualname in seen:
+            continue
+        seen.add(t.qualname)
+        p = t.positional_params[0]
+        rets = [r for r in own_nodes(t.node) if isinstance(r, ast.Return) and r.value is not None]
+        iso = [c for r in rets for c in ast.walk(r.value) if isinstance(c, ast.Call) and dotted(c.func) == "isinstance" and len(c.args) == 2
+               and isinstance(c.args[0], ast.Name) and c.args[0].id == p]
+        covers_str = any("str" in [unparse(e) for e in (c.args[1].elts if isinstance(c.args[1], ast.Tuple) else [c.args[1]])] for c in iso)
+        exact = [c for r in rets for c in ast.walk(r.value) if isinstance(c, ast.Call) and dotted(c.func) == "type" and len(c.args) == 1
+                 and isinstance(c.args[0], ast.Name) and c.args[0].id == p]
+        ok = covers_str and not exact
+        out.append(inst("SCALAR-CLASSIFIER", HOLDS if ok else VIOLATION, t, f"{t.short}[strings are scalars, subclasses included]",
+                        f"`{unparse(rets[0].value)[:80]}`: strings are excluded by isinstance" if ok else
+                        f"`{unparse(rets[0].value)[:80] if rets else '?'}` does not exclude strings by isinstance(…, str): a value whose type "
+                        f"derives from str (class Color(str, Enum)) counts as a collection and is split into characters by "
+                        f"flatten / concatenate", line=t.lineno))
     return out
